@@ -27,13 +27,7 @@ LP = 'dadi.LowPass.LowPass'
 NUM = 'dadi.Numerics'
 
 
-def flat(s):
-    return re.sub(r'[()\s]', '', s)
-
-
-def has(t, *pieces):
-    ft = flat(t)
-    return all(flat(p_) in ft for p_ in pieces)
+from sa.pattern import has, flat
 
 
 def sa_get(d, key):
